@@ -817,12 +817,93 @@ def any_to_loop_and_counters_to_enumerate(tree):
     return count[0]
 
 
+def merge_twin_branches(tree):
+    """N30: `if c: T(A) else: T(B)` where both arms are the same single statement up to one sub-expression (the same call / assignment with
+    one differing argument or value) -> `T(A if c else B)`."""
+    import copy
+    count = [0]
+
+    def diff(a, b):
+        """the unique pair of differing sub-expressions of two ASTs of the same shape, or None (no difference / more than one / other shape)"""
+        if type(a) is not type(b):
+            return (a, b) if isinstance(a, ast.expr) and isinstance(b, ast.expr) else False
+        if isinstance(a, ast.expr) and ast.dump(a) == ast.dump(b):
+            return None
+        found = None
+        for (fa, va), (fb, vb) in zip(ast.iter_fields(a), ast.iter_fields(b)):
+            if isinstance(va, list) and isinstance(vb, list):
+                if len(va) != len(vb):
+                    return (a, b) if isinstance(a, ast.expr) else False
+                pairs = list(zip(va, vb))
+            else:
+                pairs = [(va, vb)]
+            for x, y in pairs:
+                if isinstance(x, ast.AST) and isinstance(y, ast.AST):
+                    d = diff(x, y)
+                    if d is False:
+                        return (a, b) if isinstance(a, ast.expr) else False
+                    if d is not None:
+                        if found is not None:
+                            return (a, b) if isinstance(a, ast.expr) else False
+                        found = d
+                elif x != y:
+                    return (a, b) if isinstance(a, ast.expr) else False
+        return found
+
+    def rec(stmts):
+        out = []
+        for s in stmts:
+            for fld in ('body', 'orelse', 'finalbody'):
+                sub = getattr(s, fld, None)
+                if isinstance(sub, list) and sub and isinstance(sub[0], ast.stmt) and not isinstance(s, (ast.FunctionDef, ast.AsyncFunctionDef, ast.ClassDef)):
+                    setattr(s, fld, rec(sub))
+            if isinstance(s, ast.Try):
+                for h in s.handlers:
+                    h.body = rec(h.body)
+            if isinstance(s, ast.If) and len(s.body) == 1 and len(s.orelse) == 1 and type(s.body[0]) is type(s.orelse[0]) and isinstance(s.body[0], ast.Expr) \
+                    and isinstance(s.body[0].value, ast.Call) and isinstance(s.orelse[0].value, ast.Call) and isinstance(s.body[0].value.func, ast.Attribute) \
+                    and s.body[0].value.func.attr in ('append', 'add'):
+                d = diff(s.body[0], s.orelse[0])
+                if d and d is not False and isinstance(d[0], ast.expr) and d[0] is not s.body[0].value and d[0] is not s.body[0].value.func:
+                    a, b = d
+                    new = copy.deepcopy(s.body[0])
+                    # locate the differing node in the copy by position in a parallel walk
+                    for x, y in zip(ast.walk(s.body[0]), ast.walk(new)):
+                        if x is a:
+                            target = y
+                            break
+                    else:
+                        target = None
+                    if target is not None:
+                        repl = ast.IfExp(test=s.test, body=a, orelse=b)
+                        for parent in ast.walk(new):
+                            for fld, val in ast.iter_fields(parent):
+                                if val is target:
+                                    setattr(parent, fld, repl)
+                                elif isinstance(val, list):
+                                    for k, item in enumerate(val):
+                                        if item is target:
+                                            val[k] = repl
+                        ast.copy_location(new, s)
+                        ast.fix_missing_locations(new)
+                        out.append(new)
+                        count[0] += 1
+                        continue
+            out.append(s)
+        return out
+    for node in ast.walk(tree):
+        if isinstance(node, (ast.FunctionDef, ast.AsyncFunctionDef)):
+            node.body = rec(node.body)
+    return count[0]
+
+
 def normalize(tree):
     n = Normalizer()
     tree = n.visit(tree)
     n.counts['generators_to_loops'] = generators_to_loops(tree)
     n.counts['any_counters'] = any_to_loop_and_counters_to_enumerate(tree)
     n.counts['dict_updates_merged'] = merge_dict_updates(tree)
+    n.counts['twin_branches'] = merge_twin_branches(tree)
     n.counts['loop_to_comprehension'] = loops_to_comprehensions(tree)
     n.counts['enumerate_dropped'] = drop_unused_enumerate(tree)
     return tree, n.counts
